@@ -67,7 +67,7 @@ class Sim:
         self.root = os.path.join(base, "data")
         self.case = case
         self.files = universe(case["nch"], case["kinds"], case["slots"])
-        os.makedirs(self.root)
+        os.makedirs(self.root, exist_ok=True)
         for c in range(case["nch"]):
             d = os.path.join(self.root, "ch%d" % c)
             os.makedirs(os.path.join(d, SUB), exist_ok=True)
@@ -84,8 +84,27 @@ class Sim:
         }
         self._touch(self.noise["tmp"], 200)
         lim = case["limits"]
-        self.rb = ringbuffer.DigitalRFRingbuffer(self.root, size=lim.get("size"), count=lim.get("count"),
-                                                 duration=lim.get("duration"), verbose=False, status_interval=None)
+        # the watched directory may be named relative to the current directory (cwd = base); the observer reports paths
+        # below the directory the ringbuffer schedules it on, self.rb.path - event paths are built the same way
+        rel = case.get("relroot")
+        win = case.get("win") or (None, None, False)
+        self.win = win
+
+        def dt_(ms):
+            import datetime
+            if ms is None:
+                return None
+            t = datetime.datetime(1970, 1, 1, tzinfo=datetime.timezone.utc) + datetime.timedelta(milliseconds=ms)
+            return t.replace(tzinfo=None) if win[2] else t  # naive datetimes are documented to mean UTC
+
+        kw = {}
+        if win[0] is not None:
+            kw["starttime"] = dt_(win[0])
+        if win[1] is not None:
+            kw["endtime"] = dt_(win[1])
+        self.rb = ringbuffer.DigitalRFRingbuffer(rel if rel else self.root, size=lim.get("size"), count=lim.get("count"),
+                                                 duration=lim.get("duration"), verbose=False, status_interval=None, **kw)
+        self.evroot = self.rb.path
         self.h = self.rb.event_handler
         self.model = {}  # abs path -> [group(abs), key, size]
         self.deleted = []
@@ -100,12 +119,16 @@ class Sim:
     def path(self, i):
         nf = len(self.files)
         if i >= nf:
-            return os.path.join(self.root, self.files[i - nf]["rel"].replace("/" + SUB + "/", "/" + SUB2 + "/"))
-        return os.path.join(self.root, self.files[i]["rel"])
+            return os.path.join(self.evroot, self.files[i - nf]["rel"].replace("/" + SUB + "/", "/" + SUB2 + "/"))
+        return os.path.join(self.evroot, self.files[i]["rel"])
 
     def group(self, i):
         g = self.files[i % len(self.files)]["group"]
-        return (os.path.join(self.root, g[0]), g[1])
+        return (os.path.join(self.evroot, g[0]), g[1])
+
+    def in_window(self, i):
+        key = self.files[i % len(self.files)]["key"]
+        return (self.win[0] is None or key >= self.win[0]) and (self.win[1] is None or key <= self.win[1])
 
     # ---- model updates (sizes are captured with stat() *before* the handler is called, because the
     #      handler may expire the very file it was just told about)
@@ -118,7 +141,7 @@ class Sim:
         return out
 
     def m_add(self, i, sizes):
-        if i in sizes:
+        if i in sizes and self.in_window(i):  # files stamped outside the configured time window are not the ringbuffer's
             self.model[self.path(i)] = [self.group(i), self.files[i % len(self.files)]["key"], sizes[i]]
             return True
         return False
@@ -146,8 +169,16 @@ def run_sim(case, fail):
     from watchdog import events as ev
 
     info = {"expiries": 0, "irregular": False, "steps": 0}
+    old_cwd = os.getcwd()
     with rfharness.scratch("c16") as base:
-        sim = Sim(base, case)
+        os.makedirs(os.path.join(base, "data"), exist_ok=True)
+        if case.get("relroot"):
+            os.chdir(base)
+        try:
+            sim = Sim(base, case)
+        except Exception:
+            os.chdir(old_cwd)
+            raise
         real_remove, real_rmdir = os.remove, os.rmdir
         dels = []
 
@@ -285,19 +316,23 @@ def run_sim(case, fail):
                         sim.model.pop(p, None)
                     elif o == "batch_add":
                         info["irregular"] = True
-                        paths = [sim.path(i) for i in op["fs"]]
+                        # add_files / modify_files are handed lists that the ringbuffer obtained from a listing with its
+                        # own time window (they do not filter by time themselves): only in-window files are passed
+                        fs_ = [i for i in op["fs"] if sim.in_window(i)]
+                        paths = [sim.path(i) for i in fs_]
                         before = set(sim.model)
-                        sizes = sim.stat(op["fs"])
+                        sizes = sim.stat(fs_)
                         sim.h.add_files(paths, sort=op.get("sort", True))
-                        for i in op["fs"]:
+                        for i in fs_:
                             sim.m_add(i, sizes)
                         new_report = bool(set(sim.model) - before)
                     elif o == "batch_modify":
                         info["irregular"] = True
                         before = set(sim.model)
-                        sizes = sim.stat(op["fs"])
-                        sim.h.modify_files([sim.path(i) for i in op["fs"]], sort=op.get("sort", True))
-                        for i in op["fs"]:
+                        fs_ = [i for i in op["fs"] if sim.in_window(i)]
+                        sizes = sim.stat(fs_)
+                        sim.h.modify_files([sim.path(i) for i in fs_], sort=op.get("sort", True))
+                        for i in fs_:
                             sim.m_modify(i, sizes)
                         new_report = bool(set(sim.model) - before)
                     elif o == "batch_remove":
@@ -403,6 +438,7 @@ def run_sim(case, fail):
                             fail("limit-not-restored:duration", "step %d %r group %s" % (si, op, g[1]))
         finally:
             os.remove, os.rmdir = real_remove, real_rmdir
+            os.chdir(old_cwd)
             try:
                 sim.rb.observer = None
             except Exception:
@@ -480,7 +516,22 @@ def _cases(draw, tier):
             ops.append({"o": k, "kind": draw(st.sampled_from(["props", "tmp"]))})
         else:
             ops.append({"o": k, "kind": draw(st.sampled_from(["existing", "verify"]))})
-    return {"nch": nch, "kinds": kinds, "slots": slots, "limits": limits, "ops": ops}
+    case = {"nch": nch, "kinds": kinds, "slots": slots, "limits": limits, "ops": ops}
+    # how the watched directory is named, and an optional time window (aware or naive datetimes; a start time only without
+    # metadata groups, whose listing adds the forward-fill file that the event filter does not know)
+    case["relroot"] = draw(st.sampled_from([None, None, None, "data", "./data/"]))
+    if draw(st.integers(0, 3)) == 0:
+        keys = sorted({(T0 + s_ // 2) * 1000 + 500 * (s_ % 2) for s_ in range(slots)} | {(T0 + s_) * 1000 for s_ in range(slots)})
+        a = draw(st.sampled_from(keys)) + draw(st.sampled_from([-1, 0, 0, 1]))
+        b = draw(st.sampled_from(keys)) + draw(st.sampled_from([-1, 0, 0, 1]))
+        if b < a:
+            a, b = b, a
+        which_w = draw(st.integers(0, 2))
+        start = a if (which_w in (0, 2) and "dmd" not in kinds) else None
+        end = b if which_w in (1, 2) else None
+        if start is not None or end is not None:
+            case["win"] = [start, end, draw(st.booleans())]
+    return case
 
 
 def strategy(tier):
